@@ -23,6 +23,8 @@ struct Sc {
     admin_client: bool,
     /// clients that came and went before the population was built
     visitors: usize,
+    /// the signal arrives when the pooler has already been up for longer than shutdown_timeout
+    late_signal: bool,
 }
 
 #[derive(Debug)]
@@ -176,6 +178,14 @@ fn scenario(sc: &Sc, rep: &Report) -> Result<(), String> {
     ready.wait();
     // idle clients must have been idle for >= 50 ms before the signal
     sleep_ms(80);
+    if sc.late_signal {
+        // (idle clients stay idle, open transactions stay open meanwhile)
+        let up_to = cell.pg().t_spawn + (sc.timeout_ms + 200) * 1_000_000;
+        while now_ns() < up_to {
+            sleep_ms(10);
+        }
+        rep.count("signals_after_uptime_exceeded_shutdown_timeout", 1);
+    }
     let log_from = cell.pg().log_len();
     let ts = now_ns();
     match sc.signal.as_str() {
@@ -332,7 +342,7 @@ fn scenario(sc: &Sc, rep: &Report) -> Result<(), String> {
             }
         }
     }
-    rep.distinct(crate::util::fnv(format!("{:?}", (sc.idle, sc.in_txn, sc.remaining_ms / 50, sc.timeout_ms, &sc.signal, sc.admin_client, sc.visitors)).as_bytes()));
+    rep.distinct(crate::util::fnv(format!("{:?}", (sc.idle, sc.in_txn, sc.remaining_ms / 50, sc.timeout_ms, &sc.signal, sc.admin_client, sc.visitors, sc.late_signal)).as_bytes()));
     Ok(())
 }
 
@@ -341,7 +351,7 @@ pub fn run(tier: &str) -> i32 {
         "C17",
         tier,
         "exploration",
-        "scenario = one pgcat process with 0-10 idle and 0-6 mid-transaction clients (0-600 ms of work left), 0-3 earlier visitors that already left, every client starting either with StartupMessage or with SSLRequest answered 'N' then plain text, optional admin connection, shutdown_timeout 0.5-8 s, signal in {SIGINT, admin SHUTDOWN, SIGTERM, SIGINT twice}; oracle = waitpid time/status from the parent, replies seen by each population member, login attempts after the 'Got SIGINT' log line; distinct = distinct population/timing classes",
+        "scenario = one pgcat process with 0-10 idle and 0-6 mid-transaction clients (0-600 ms of work left), 0-3 earlier visitors that already left, every client starting either with StartupMessage or with SSLRequest answered 'N' then plain text, optional admin connection, shutdown_timeout 0.5-8 s, signal (a third of them sent when the pooler has been up for longer than shutdown_timeout) in {SIGINT, admin SHUTDOWN, SIGTERM, SIGINT twice}; oracle = waitpid time/status from the parent, replies seen by each population member, login attempts after the 'Got SIGINT' log line; distinct = distinct population/timing classes",
     );
     rep.assume("session-mode clients are outside the property's wording and not generated");
     let thorough = rep.thorough();
@@ -360,6 +370,7 @@ pub fn run(tier: &str) -> i32 {
                 signal: signal.into(),
                 admin_client: rng.chance(1, 3),
                 visitors: if rng.chance(1, 2) { rng.range(1, 3) as usize } else { 0 },
+                late_signal: !big_timeout && rng.chance(1, 3),
             }
         })
         .collect();
